@@ -44,3 +44,12 @@ package dns
 //@   prop C05 C13
 //@   trusted
 //@   ensures ad == tlsaAD(e, domain) && recs == tlsaRecs(e, domain) && err == tlsaErr(e, domain)
+
+// IsNotFound: "the name / record set does not exist" - an NXDOMAIN-type answer, as reported by the standard resolver
+// (net.DNSError.IsNotFound) or by the DNSSEC-aware one (RCodeError with NXDOMAIN); every other resolver failure
+// (SERVFAIL, REFUSED, NOTIMP, FORMERR, time-outs) is NOT "not found" - DANE and DMARC fail closed on those.
+//@ import mdns "github.com/miekg/dns"
+//@ pure func notFoundErr(e error) bool = isType(e, "*net.DNSError") ? as(e, "*net.DNSError").IsNotFound : (isType(e, "RCodeError") ? as(e, "RCodeError").Code == 3 : false)
+//@ func IsNotFound
+//@   prop C05 C13
+//@   ensures result == notFoundErr(err)
